@@ -1099,7 +1099,9 @@ impl Vm {
 
     fn end_finally_impl(&mut self) -> Result<(), Error> {
         if self.active_fiber().handling_exception {
-            self.unwind_stack()?;
+            // The exception goes on to its next handler. A return waiting in that handler's
+            // frame belongs to a finally block still running there, not to this one.
+            return self.unwind_stack();
         }
         let return_data = self.active_fiber_mut().take_return_data();
         if let Some((value, ip)) = return_data {
